@@ -20,6 +20,7 @@ var evalCodeText = map[int]string{
 	7:  "TryEval result/effects differ from its tree-level meaning",
 	8:  "the implementation's program fails the static stack-bound validation",
 	9:  "registered operators invoked during Compile differ from the model's constant-folding log",
+	15: "the implementation's optimised tree differs from the model's AND Eval returns something else than the model-optimised tree means",
 	10: "event-mode layout: the structural compiler the C12 theorem is about differs from the transliterated event pass",
 	50: "outside the property's domain (non-boolean operand of and/or): not compared",
 }
@@ -253,7 +254,7 @@ func init() {
 		Rule: "random typed expression trees (all operator families and aliases, if, literals, lists, registered operators incl. zero-operand and failing ones, failing variables, wrong-typed operands, and/or with 0..127 operands) rendered to source, compiled with all optimisations disabled, evaluated under random bindings with a recording fetcher; Go's result/error and its ordered fetch/operator-call effects are compared with the reference semantics `sem` of the model (and the model's compile/run with Go's exported program); non-trivial = at least one effect or more than 3 nodes; distinct = distinct (source, config, binding)",
 		Assumptions: []string{"fetcher and registered operators are deterministic functions of their arguments (the harness's recording fetcher and test operators are)",
 			"errors are compared by class and identity of the user error, not by message text"},
-		Behav: []int{5, 2}, Fidelity: []int{3, 4, 8, 10}, Ignore: []int{50, 1, 6, 7}, CodeText: evalCodeText,
+		Behav: []int{5, 2}, Fidelity: []int{3, 4, 8, 10, 15}, Ignore: []int{50, 1, 6, 7}, CodeText: evalCodeText,
 		Gen: genC01,
 	})
 }
@@ -397,7 +398,7 @@ func init() {
 		ID:   "C03",
 		Rule: "random typed trees x all 16 optimisation subsets x cost maps x stateless declarations x bindings; Go's ordered VariableFetcher.Get calls and registered-operator calls (with arguments and results, incl. failing calls) are compared with the effect trace of the reference semantics of Go's own optimised tree (VerifParse), fast operators having the fetch-both-leaves meaning; non-trivial = at least one effect; distinct = distinct (source, config, binding)",
 		Assumptions: []string{"effects are observed through a recording VariableFetcher and recording registered operators"},
-		Behav: []int{5, 2}, Fidelity: []int{3, 4, 8, 10}, Ignore: []int{50, 1, 6, 7}, CodeText: evalCodeText,
+		Behav: []int{5, 2}, Fidelity: []int{3, 4, 8, 10, 15}, Ignore: []int{50, 1, 6, 7}, CodeText: evalCodeText,
 		Gen: func(c *RunCtx) []*Batch {
 			r := c.R
 			b := evalBatch("C03", "eval_effects")
@@ -451,21 +452,21 @@ func init() {
 		ID:   "C04",
 		Rule: "random trees (incl. failing sub-expressions) x optimisation subsets x random available/unavailable splits x bindings, TryEval run with a truthful loading fetcher (Cached reports the split, Get would succeed for every variable) and compared with the tree-level meaning of TryEval `trysem` (outcome and fetch/call effects, so a read of an unavailable variable is visible); Eval on the full binding compared with `sem`; non-trivial = every case; distinct = distinct (source, config, binding, split)",
 		Assumptions: []string{"the fetcher reports availability truthfully"},
-		Behav:       []int{7, 5, 2}, Fidelity: []int{3, 6, 4, 8, 10}, Ignore: []int{50, 1}, CodeText: evalCodeText,
+		Behav:       []int{7, 5, 2}, Fidelity: []int{3, 6, 4, 8, 10, 15}, Ignore: []int{50, 1}, CodeText: evalCodeText,
 		Gen:         tryGen("C04", true),
 	})
 	register(&PropDef{
 		ID:   "C05",
 		Rule: "as C04 but without failing variables or wrong-typed operands (the property's domain: sub-expressions do not fail), DNE variables placed anywhere; TryEval compared with `trysem`, which the theorem equates with strong Kleene evaluation on non-failing expressions; event mode on for a sixth of the cases",
 		Assumptions: []string{"the fetcher reports availability truthfully"},
-		Behav:       []int{7, 2}, Fidelity: []int{3, 6, 8, 10}, Ignore: []int{50, 1, 4, 5}, CodeText: evalCodeText,
+		Behav:       []int{7, 2}, Fidelity: []int{3, 6, 8, 10, 15}, Ignore: []int{50, 1, 4, 5}, CodeText: evalCodeText,
 		Gen:         tryGen("C05", false),
 	})
 	register(&PropDef{
 		ID:   "C12",
 		Rule: "random trees x optimisation subsets x {ReportEvent, Debug} x {Eval, TryEval}: the OP_EXEC/LOOP events read from a buffered channel after the call returned (a retaining consumer) are compared with the model's observation stream (operator name, fast flag, arguments at call time, result or error; LOOP position, node and stack snapshot); Dump, Eval and TryEval results compared directly with the same source compiled without the event options; non-trivial = at least one OP_EXEC event; distinct = distinct (source, config, binding)",
 		Assumptions: []string{"events are consumed from a channel with enough capacity, after the evaluation returned (consumer timing: retained); synchronous consumers are exercised by C07's concurrent runs"},
-		Behav:       []int{5, 7, 2}, Fidelity: []int{3, 4, 6, 8, 10}, Ignore: []int{50, 1}, CodeText: evalCodeText,
+		Behav:       []int{5, 7, 2}, Fidelity: []int{3, 4, 6, 8, 10, 15}, Ignore: []int{50, 1}, CodeText: evalCodeText,
 		Gen: func(c *RunCtx) []*Batch {
 			r := c.R
 			b := evalBatch("C12", "events")
